@@ -196,6 +196,12 @@ class _WithStore:
 @model(r'^Vec::remove$')
 def m_vec_remove(ex, st, c):
     a = D(ex, st, c.args[0]); i = D(ex, st, c.args[1])
+    if not i.conc and isinstance(a, SymStr):
+        n = a.length()
+        oob = bv_ule(n, i.v, LW)
+        rest = a.take(i.v).concat(a.drop(bv_add(i.v, 1, LW)))
+        return ForkStore([(oob, Panic('Vec::remove index out of bounds'), None),
+                          (b_not(oob), Int('u8', a.flat().byte_at(i.v)), (c.args[0], rest))])
     if not i.conc: raise Unsupported('Vec::remove symbolic index')
     if isinstance(a, Vec):
         if i.v >= len(a.items): return Panic('Vec::remove index out of bounds')
@@ -417,6 +423,18 @@ def pure_next(ex, st, it):
         if found is False: return [(True, rest, Opaque('Split', (None, p)))]
         left, right = split_once_parts(rest, p, found, idx)
         return [(found, left, Opaque('Split', (right, p))), (b_not(found), rest, Opaque('Split', (None, p)))]
+    if isinstance(it, Opaque) and it.tag == 'Windows':
+        v, n = it.data[0], it.data[1]
+        pos = it.data[2] if len(it.data) > 2 else 0
+        if not n.conc: raise Unsupported('windows of symbolic size')
+        if isinstance(v, Vec):
+            if pos + n.v > len(v.items): return [(True, None, it)]
+            return [(True, Vec(v.items[pos:pos + n.v]), Opaque('Windows', (v, n, pos + 1)))]
+        ln = v.length()
+        fits = bv_ule(pos + n.v, ln, LW)
+        if fits is False: return [(True, None, it)]
+        w = v.substr(pos, n.v)
+        return [(fits, w, Opaque('Windows', (v, n, pos + 1))), (b_not(fits), None, it)]
     if isinstance(it, Opaque) and it.tag in ('Chars', 'Bytes'):
         s_, pos = it.data
         n = s_.length(); oob = bv_ule(n, pos, LW)
@@ -751,7 +769,7 @@ def m_eq_ic(ex, st, c): return D(ex, st, c.args[0]).map_bytes(lower).eq(D(ex, st
 
 
 # ------------------------------------------------------------------ joins
-@model(r'^slice::<impl \[(String|&str)\]>::join$', r'^slice::<impl \[(String|&str)\]>::concat$',
+@model(r'^slice::<impl \[(String|&str)\]>::join$', r'^slice::<impl \[(String|&str)\]>::concat$', r'^slice::<impl \[(Vec<u8>|&\[u8\])\]>::join$',
        r'^slice::<impl \[Vec<u8>\]>::concat$', r'^slice::<impl \[&\[u8\]\]>::concat$', r'^slice::<impl \[.*\]>::concat$')
 def m_join(ex, st, c):
     v = D(ex, st, c.args[0])
